@@ -81,9 +81,9 @@ func (r *c12Reader) Read(p []byte) (int, error) {
 // down, so such inputs are not executed in the parallel sweeps; the allocation clause is decided on
 // crafted inputs in a sequential phase instead.  c12Dangerous predicts, by replaying the read pattern
 // of pkg/scale's decoder (sizes of the Read calls, zero-filled short reads) on the same reader, whether
-// a byte-string length more than 1 KiB above the bytes actually left in the input (or a count above 1 Ki of zero-sized elements) would be
+// a byte-string length more than 64 bytes above the bytes actually left in the input (or a count above 64 of zero-sized elements) would be
 // reached.  It is not an oracle: it only selects inputs to skip, and skipped inputs are counted.
-const c12DangerLen = 1 << 10
+const c12DangerLen = 64
 
 type c12Shadow struct {
 	rd     *c12Reader
@@ -289,39 +289,6 @@ func c12LeafGroup(leaf string) string {
 	return leaf
 }
 
-var c12Two64 = new(big.Int).Lsh(big.NewInt(1), 64)
-
-// c12Unsign maps a negative Go int (which gossamer encodes as the two's complement uint64; SCALE has
-// no compact form for negative numbers) to the unsigned number whose compact encoding it is.
-func c12Unsign(t *ref.C11Type, v *ref.C11Val) *ref.C11Val {
-	out := &ref.C11Val{N: v.N, B: v.B, T: v.T, Idx: v.Idx}
-	if t.Kind == ref.C11Compact && t.Signed && v.N.Sign() < 0 {
-		out.N = new(big.Int).Add(v.N, c12Two64)
-		return out
-	}
-	switch t.Kind {
-	case ref.C11Option:
-		if v.Idx == 1 {
-			out.Elems = []*ref.C11Val{c12Unsign(t.Elem, v.Elems[0])}
-		}
-	case ref.C11Vec, ref.C11Array:
-		for _, e := range v.Elems {
-			out.Elems = append(out.Elems, c12Unsign(t.Elem, e))
-		}
-	case ref.C11Map:
-		for i := 0; i+1 < len(v.Elems); i += 2 {
-			out.Elems = append(out.Elems, c12Unsign(t.Key, v.Elems[i]), c12Unsign(t.Elem, v.Elems[i+1]))
-		}
-	case ref.C11Tuple:
-		for i, e := range v.Elems {
-			out.Elems = append(out.Elems, c12Unsign(t.Fields[i], e))
-		}
-	case ref.C11Result, ref.C11Enum:
-		out.Elems = []*ref.C11Val{c12Unsign(t.Fields[v.Idx], v.Elems[0])}
-	}
-	return out
-}
-
 type c12Case struct {
 	Type     string `json:"type"`
 	Input    string `json:"input"`
@@ -422,8 +389,8 @@ func c12Violate(r *verifmc.Report, cnt *c11Counts, sig string, mk func() (string
 // It returns true when the decoder accepted the input.
 func c12Check(r *verifmc.Report, cnt *c11Counts, t *ref.C11Type, input []byte, mode, k int, class string) bool {
 	if c12Dangerous(t, input, mode, k) {
-		cnt.add["skipped_declares_1KiB_more_than_present"]++
-		cnt.outcome[class+":not-executed-declares-1KiB-more-than-present (allocation phase decides the clause)"]++
+		cnt.add["skipped_declares_64B_more_than_present"]++
+		cnt.outcome[class+":not-executed-declares-64B-more-than-present (allocation phase decides the clause)"]++
 		return false
 	}
 	cnt.add["evaluations"]++
@@ -477,7 +444,7 @@ func c12Check(r *verifmc.Report, cnt *c11Counts, t *ref.C11Type, input []byte, m
 		})
 		return true
 	}
-	reenc := ref.C11Enc(t, c12Unsign(t, val))
+	reenc := ref.C11Enc(t, c11Unsign(t, val))
 	if bytes.Equal(reenc, input[:consumed]) {
 		cnt.outcome[class+":accepted-canonical"]++
 		return true
@@ -509,6 +476,10 @@ func c12Check(r *verifmc.Report, cnt *c11Counts, t *ref.C11Type, input []byte, m
 		}
 	case derr != nil:
 		sig = "Decode:accepts:" + derr.Class + "@" + c12LeafGroup(derr.Leaf)
+	case mode != c12Whole:
+		// the input is a valid encoding; the value or the consumed length changed because a short read
+		// of the reader was taken for a complete one
+		sig = "Decode:short-read-not-completed"
 	case rn != consumed:
 		sig = "Decode:wrong-consumed-length@" + ref.C11KindName(t)
 	default:
@@ -558,15 +529,15 @@ func c12TypeTask(r *verifmc.Report, t *ref.C11Type, depth int) {
 		}
 	}
 	// B. canonical encodings of the boundary values and their deviation-1 neighbourhood
-	vals := c11Values(t, depth <= 1)
-	fullSubstLen := verifmc.Pick(12, 24)
+	vals := c11Values(t, depth <= verifmc.Pick(0, 1))
+	fullSubstLen := verifmc.Pick(8, 24)
 	if depth >= 2 {
 		fullSubstLen = verifmc.Pick(0, 12)
 	}
 	seen := map[string]bool{}
 	for _, v := range vals {
 		if c11HasNegativeCompact(t, v) {
-			v = c12Unsign(t, v)
+			v = c11Unsign(t, v)
 		}
 		e := ref.C11Enc(t, v)
 		if seen[string(e)] || len(e) > 4096 {
@@ -680,9 +651,9 @@ func c12AllocPhase(r *verifmc.Report) {
 	}
 	payloads := [][]byte{{}, {0x01, 0x02, 0x03}}
 	for _, c := range cases {
-		lens := []uint64{1 << 14, 1 << 20, 1 << 24}
+		lens := []uint64{1 << 14, 1 << 20}
 		if c.big {
-			lens = append(lens, 1<<30)
+			lens = append(lens, verifmc.Pick[uint64](1<<24, 1<<30))
 		}
 		for _, l := range lens {
 			for _, pl := range payloads {
@@ -693,7 +664,7 @@ func c12AllocPhase(r *verifmc.Report) {
 				var err error
 				var accepted bool
 				var panicMsg string
-				alloc := c12AllocOf(l < 1<<30, func() {
+				alloc := c12AllocOf(l < 1<<20, func() {
 					dest := c11Dest(c.t)
 					p, msg := verifmc.Guard(func() { err = Unmarshal(in, dest.Interface()) })
 					if p {
@@ -723,12 +694,12 @@ func c12AllocPhase(r *verifmc.Report) {
 	}
 	// non-vacuity of the bound: honest inputs stay within it
 	for _, t := range []*ref.C11Type{c11BytesT, c11Vec(c11U32T), c11Map(c11U8T, c11BytesT), c11BigT} {
-		for _, v := range c11Values(t, true) {
+		for _, v := range c11Values(t, false) {
 			e := ref.C11Enc(t, v)
 			cnt.add["alloc_measurements"]++
 			alloc := c12AllocOf(true, func() {
 				dest := c11Dest(t)
-				_ = Unmarshal(e, dest.Interface())
+				c12Try(func() { _ = Unmarshal(e, dest.Interface()) })
 			})
 			if bound := uint64(64*len(e) + 256<<10); alloc > bound {
 				r.Violate("Decode:allocation-over-bound-on-valid-input@"+ref.C11KindName(t), fmt.Sprintf("decoding the valid %d-byte encoding of %s allocates %d bytes (bound %d)", len(e), ref.C11Name(t), alloc, bound), c12Case{Type: ref.C11Name(t), Input: verifmc.Hex(e)})
@@ -757,9 +728,9 @@ func c12LenOwner(t *ref.C11Type) *ref.C11Type {
 func TestVerif_C12(t *testing.T) {
 	r := verifmc.NewReport("C12", "decode-malformed", "exploration")
 	defer r.Write()
-	depth := 2
+	depth := verifmc.Pick(1, 2)
 	cat := c11Catalogue(depth)
-	r.Rule = fmt.Sprintf("for every type of the C11 catalogue (depth %d): every byte string of length <=%d (leaves), <=2 (depth 1), <=%d (depth 2); for the canonical encoding of every boundary value: the encoding through a whole-buffer reader, a one-byte-per-Read reader, a reader alternating (0,nil) reads and a two-chunk reader split at every position; every truncation (whole and one-byte readers); every single-byte substitution (all 255 values for encodings up to %d bytes at depth<=1, else 19 mode/tag/extreme values per position); one appended byte; crafted length prefixes 2^14, 2^20, 2^24 (and 2^30 for []byte) in front of 0/3 payload bytes with TotalAlloc measured (sequentially, minimum of two runs, bound 64*len+256KiB).  Oracle: an accepted input must re-encode (reference encoder) to exactly the bytes taken from the reader.  A case is non-trivial when the decoder accepts it.", depth, verifmc.Pick(2, 3), verifmc.Pick(1, 2), verifmc.Pick(12, 24))
+	r.Rule = fmt.Sprintf("for every type of the C11 catalogue (depth %d): every byte string of length <=%d (leaves), <=2 (depth 1), <=%d (depth 2); for the canonical encoding of every boundary value: the encoding through a whole-buffer reader, a one-byte-per-Read reader, a reader alternating (0,nil) reads and a two-chunk reader split at every position; every truncation (whole and one-byte readers); every single-byte substitution (all 255 values for encodings up to %d bytes at depth<=1, else 19 mode/tag/extreme values per position); one appended byte; crafted length prefixes 2^14, 2^20 (and 2^24 quick / 2^30 thorough for []byte) in front of 0/3 payload bytes with TotalAlloc measured (sequentially, minimum of two runs, bound 64*len+256KiB).  Oracle: an accepted input must re-encode (reference encoder) to exactly the bytes taken from the reader.  A case is non-trivial when the decoder accepts it.", depth, verifmc.Pick(2, 3), verifmc.Pick(1, 2), verifmc.Pick(8, 24))
 	// reference decoder sanity (strictness) against specification examples
 	for _, c := range []struct {
 		in  string
